@@ -28,6 +28,42 @@ EXTRA = [  # unknown commands, application executors, AUTH through the auth doub
 ]
 
 
+BIG = [  # arguments at and beyond 64 KiB, several in one request and in consecutive requests (same and different lengths)
+    {"name": "SET", "args": [tok("key", "s:big64a"), tok("str", "s:big64b")]},
+    {"name": "mset", "args": [tok("key", "k1"), tok("str", "s:big64a"), tok("key", "k2"), tok("str", "s:big64b"), tok("key", "k3"), tok("str", "s:big70")]},
+    {"name": "MYCMD", "args": [tok("str", "s:big64a"), tok("str", "s:big64b"), tok("str", "s:big63"), tok("str", "s:big200"), tok("str", "s:big64a")]},
+    {"name": "rpush", "args": [tok("key", "k1"), tok("str", "s:big70"), tok("str", "s:big64b"), tok("str", "s:big63"), tok("str", "s:big64a")]},
+    {"name": "hset", "args": [tok("key", "k1"), tok("key", "s:big64b"), tok("str", "s:big64a")]},
+    {"name": "append", "args": [tok("key", "s:big200"), tok("str", "s:big70")]},
+]
+
+
+def big_pipeline():
+    reqs = [{"cls": "well", "name": v["name"], "args": v["args"]} for v in BIG if v["name"] != "MYCMD"]
+    return {"handler": "rec", "tracer": False, "nconns": 1, "steps": [{"c": 0, "op": "send", "chunking": ch, "reqs": reqs + [cmdlib.echo("t1")]} for ch in ("whole", "perreq")]}
+
+
+def runtime_registration():
+    """An application executor registered while the connection is open: the same spelling is unknown before and dispatched after."""
+    my = lambda name, *a: {"cls": "well", "name": name, "args": list(a)}
+    return {"handler": "rec", "tracer": False, "nconns": 2, "steps": [
+        {"c": 0, "op": "send", "reqs": [my("MYCMD", tok("str", "v1")), my("mycmd", tok("str", "v2"))]},
+        {"c": 1, "op": "send", "reqs": [my("MYCMD2")]},
+        {"c": 0, "op": "register", "name": "MYCMD"},
+        {"c": 0, "op": "send", "reqs": [my("mycmd", tok("str", "v2")), my("MYCMD", tok("str", "v1")), my("MYCMD2", tok("str", "v1"))]},
+        {"c": 1, "op": "send", "reqs": [my("MYCMD2"), my("MYCMD", tok("str", "s:bin"))]},
+        {"c": 0, "op": "register", "name": "MYCMD2"},
+        {"c": 1, "op": "send", "reqs": [my("MYCMD2"), my("mycmd2", tok("str", "v1")), my("MYCMD")]},
+        {"c": 0, "op": "send", "reqs": [my("MYCMD2", tok("str", "v1")), cmdlib.echo("t1")]},
+        # ... and replaced: the connection's most recent command is the one whose executor changes, in the same spelling
+        {"c": 0, "op": "send", "reqs": [my("MYCMD", tok("str", "v1"))]},
+        {"c": 0, "op": "register", "name": "MYCMD", "tag": "MyCmdB"},
+        {"c": 0, "op": "send", "reqs": [my("MYCMD", tok("str", "v1")), my("MYCMD", tok("str", "v2"))]},
+        {"c": 1, "op": "send", "reqs": [my("GET", tok("key", "k1"))]},
+        {"c": 1, "op": "register", "name": "GET", "tag": "MyGet"},       # over a built-in command
+        {"c": 1, "op": "send", "reqs": [my("GET", tok("key", "k1")), my("get", tok("key", "k2"))]}]}
+
+
 def run(ctx):
     thorough = ctx.tier == "thorough"
     ctx.build()
@@ -37,8 +73,9 @@ def run(ctx):
     else:
         gen = ctx.tlc("MC_Cmd", "MC_Cmd_well_thorough.cfg" if thorough else "MC_Cmd_well_quick.cfg", name="MC_Cmd_well",
                       workers=vlib.NCPU, timeout=2400)
-        vecs = [json.loads(s) for s in gen.scenarios] + [dict(v, st="extra") for v in EXTRA]
+        vecs = [json.loads(s) for s in gen.scenarios] + [dict(v, st="extra") for v in EXTRA + BIG]
         scenarios = [two_conn_wrap(v) for v in vecs]
+        scenarios += [big_pipeline(), runtime_registration()]
         scenarios += [cmdlib.concurrent_slow(v) for v in range(8)]     # "what the handler returns is what the client receives", concurrently
     ctx.stage("generate")
     accepted, scs, lines = connlib.run_scenarios(ctx, scenarios, "c05")
